@@ -183,7 +183,9 @@ func init() {
 			// assignments, a variable that shadows a field it was initialised from - at top level, in a block, and in a block
 			// behind K live locals (K around 24 / 32 / 64 / 256: whatever the compiler starts doing once there are many)
 			stm := []string{"var x = 7", "var y = 0", "var x = x + 1", "eval x or (y = 1)", "eval x and (y = 2)", "eval (y = 3) or x", "eval y = x", "eval x = y",
-				"print x", "print y", "eval x = 4", "print x + y", "eval y = (x = 5) and y", "eval x or (x = 6)"}
+				"print x", "print y", "eval x = 4", "print x + y", "eval y = (x = 5) and y", "eval x or (x = 6)",
+				// a name whose first mention sits in an operand that a literal left operand makes dead
+				"eval false and z", "eval 1 or (z = 1)", "z = 3", "print z"}
 			var seqs []string
 			var rec func(prefix string, n int)
 			rec = func(prefix string, n int) {
